@@ -941,6 +941,16 @@ func (ex *Exec) run(s *astate) ([]*astate, *AOutcome, error) {
 			caller.env[fr.call] = rv
 			caller.pc++
 			continue
+		case *ssa.Lookup:
+			if s.stopAt == nil && !s.stopRet {
+				if fs := ex.forkLookup(s, fr, x); fs != nil {
+					if len(fs) == 1 && fs[0] == s {
+						continue
+					}
+					return fs, nil, nil
+				}
+			}
+			fr.env[x] = ex.eval(s, fr, x)
 		case *ssa.Call:
 			if s.stopAt == nil && !s.stopRet {
 				if fs := ex.forkIntrinsic(s, fr, x); fs != nil {
@@ -2045,6 +2055,18 @@ func (ex *Exec) binop(s *astate, fr *aframe, x *ssa.BinOp) AVal {
 			}
 		}
 	case token.EQL, token.NEQ:
+		// a value the source is known not to have
+		for _, pr := range [][2]BitVec{{l.Bits, r.Bits}, {r.Bits, l.Bits}} {
+			if src, okS := plainSource(pr[0]); okS {
+				if k, okK := constOfBits(pr[1]); okK {
+					for _, e := range s.excl[src] {
+						if uint64(e) == k {
+							return boolVal(x.Op == token.NEQ)
+						}
+					}
+				}
+			}
+		}
 		if lr, okL := s.rangeOf(l.Bits, signed); okL {
 			if rr, okR := s.rangeOf(r.Bits, signed); okR {
 				if lr.hi < rr.lo || rr.hi < lr.lo {
